@@ -29,6 +29,8 @@ pub enum SEv {
     DropHandles(usize),
     PeerOpenNew,
     PeerPingAck,
+    /// PING acknowledgement with a payload nobody asked for (legal, to be ignored) - e.g. a late ack of a user ping
+    PeerStrayPingAck,
     PeerDataEos(usize),
     PeerGoAway(u32, u32),
     Drive,
@@ -46,6 +48,7 @@ pub struct SWorld {
     pub goaways_seen: usize,
     pub push_ok_after_goaway: Vec<u32>,
     pub pings_acked: usize,
+    pub stray_acks: usize,
 }
 
 pub struct ServerShutdown {
@@ -55,7 +58,7 @@ pub struct ServerShutdown {
 
 impl ServerShutdown {
     pub fn new(name: &'static str, quick: bool) -> ServerShutdown {
-        let mut ev = vec![SEv::Graceful, SEv::Abrupt(2), SEv::PeerOpenNew, SEv::PeerPingAck, SEv::Drive];
+        let mut ev = vec![SEv::Graceful, SEv::Abrupt(2), SEv::PeerOpenNew, SEv::PeerPingAck, SEv::PeerStrayPingAck, SEv::Drive];
         for k in 0..2 {
             ev.push(SEv::RespondEos(k));
             ev.push(SEv::Push(k));
@@ -86,7 +89,7 @@ impl Model for ServerShutdown {
         t.peer_request(1, "/a", false);
         t.peer_request(3, "/b", false);
         t.drive(50);
-        SWorld { opened: vec![1, 3], peer_done: vec![false, false], graceful: false, abrupt: None, peer_goaway: None, peer_goaway_processed: false, max_accepted_before: 3, goaways_seen: 0, push_ok_after_goaway: vec![], pings_acked: 0 }
+        SWorld { opened: vec![1, 3], peer_done: vec![false, false], graceful: false, abrupt: None, peer_goaway: None, peer_goaway_processed: false, max_accepted_before: 3, goaways_seen: 0, push_ok_after_goaway: vec![], pings_acked: 0, stray_acks: 0 }
     }
     fn n_events(&self) -> usize {
         self.events.len()
@@ -109,6 +112,7 @@ impl Model for ServerShutdown {
                 let pings = t.subject_frames().iter().filter(|f| matches!(&f.parsed, Ok(Parsed::Ping { ack: false, .. }))).count();
                 pings > w.pings_acked
             }
+            SEv::PeerStrayPingAck => w.stray_acks < 1,
             SEv::PeerDataEos(k) => !w.peer_done[*k] && t.rst_sent(w.opened[*k]).is_empty(),
             SEv::PeerGoAway(last, _) => w.peer_goaway.map(|(l, _)| *last <= l).unwrap_or(true) && w.peer_goaway.map(|(l, _)| l != *last).unwrap_or(true),
             SEv::Drive => true,
@@ -174,6 +178,10 @@ impl Model for ServerShutdown {
                 let pings: Vec<[u8; 8]> = t.subject_frames().iter().filter_map(|f| if let Ok(Parsed::Ping { ack: false, payload }) = &f.parsed { Some(*payload) } else { None }).collect();
                 t.peer_send(&wf::ping(pings[w.pings_acked], true));
                 w.pings_acked += 1;
+            }
+            SEv::PeerStrayPingAck => {
+                t.peer_send(&wf::ping([9; 8], true));
+                w.stray_acks += 1;
             }
             SEv::PeerDataEos(k) => {
                 t.peer_send(&wf::data(w.opened[k], b"end", true));
@@ -312,7 +320,7 @@ impl Model for ServerShutdown {
     }
     fn digest_extra(&self, t: &T2, w: &SWorld) -> String {
         format!(
-            "opened={:?} done={:?} graceful={} abrupt={:?} peer_goaway={:?}/{} acked={} goaways={:?} acc={:?}",
+            "opened={:?} done={:?} graceful={} abrupt={:?} peer_goaway={:?}/{} acked={}/{} goaways={:?} acc={:?}",
             w.opened,
             w.peer_done,
             w.graceful,
@@ -320,6 +328,7 @@ impl Model for ServerShutdown {
             w.peer_goaway,
             w.peer_goaway_processed,
             w.pings_acked,
+            w.stray_acks,
             goaways_sent(t).iter().map(|g| (g.1, g.2)).collect::<Vec<_>>(),
             t.accepted.iter().map(|a| (a.sid, a.respond.is_some(), a.body.is_some())).collect::<Vec<_>>()
         )
